@@ -94,6 +94,27 @@ mod verif_c15 {
         kani::cover!(d == 0);
     }
 
+    // @harness id=C15 tier=quick timeout=1200 mem=16
+    // @bounds HumanCount at the concrete ends of the u64 range: u64::MAX, 10^19, 10^18, 10^18 - 1 (no panic, grouping digit by digit); concrete inputs, so that CBMC decides them whatever loops the implementation uses
+    #[kani::proof]
+    #[kani::unwind(28)]
+    fn c15_human_count_range_ends() {
+        let mut out: Buf<40> = Buf::new();
+        assert!(render(&HumanCount(u64::MAX), &mut out).is_ok());
+        assert!(out.n == 26);
+        digits_and_commas(&out, u64::MAX);
+        let mut out: Buf<40> = Buf::new();
+        assert!(render(&HumanCount(10_000_000_000_000_000_000), &mut out).is_ok());
+        assert!(out.n == 26);
+        let mut out: Buf<40> = Buf::new();
+        assert!(render(&HumanCount(1_000_000_000_000_000_000), &mut out).is_ok());
+        assert!(out.n == 25);
+        digits_and_commas(&out, 1_000_000_000_000_000_000);
+        let mut out: Buf<40> = Buf::new();
+        assert!(render(&HumanCount(999_999_999_999_999_999), &mut out).is_ok());
+        assert!(out.n == 23);
+    }
+
     // @harness id=C15 tier=quick timeout=1800 mem=10
     // @bounds FormattedDuration for every whole-second value < 2^17 s (~1.5 days) and any sub-second part: [Dd ]HH:MM:SS digit by digit
     #[kani::proof]
